@@ -254,6 +254,19 @@ def eval_users(case):
         return ('alsoProvides-order', da, direct, x, after, before)
     if not I[x].providedBy(c):
         return ('alsoProvides-providedBy', da, direct, x)
+    # --- a declaration built from what an object provides is built from the
+    # interfaces it iterates *at that moment* (declarations passed as arguments
+    # are flattened): later declarations on the class do not reach it
+    e = A()
+    directlyProvides(e, *[I[n] for n in direct])
+    snap = Declaration(providedBy(e))
+    snap2 = Declaration(Declaration(providedBy(e)), [directlyProvidedBy(e)])
+    before = (nm(snap), nm(snap2), nm(snap.flattened()))
+    Late = InterfaceClass('Late', (Interface,), {'__module__': wmod()})
+    classImplements(A, Late)
+    alsoProvides(e, I[x])
+    if (nm(snap), nm(snap2), nm(snap.flattened())) != before or Late in snap or Late in snap2:
+        return ('declaration-built-from-providedBy-changes-later', da, direct, x, before, nm(snap))
     # --- a class specification among the direct declarations (legal: any
     # specification can be declared): it is part of what is directly provided
     # and survives later alsoProvides / noLongerProvides
